@@ -3,6 +3,7 @@ package rules
 import (
 	"encoding/json"
 	"fmt"
+	"go/token"
 	"go/types"
 	"golang.org/x/tools/go/ssa"
 	"os"
@@ -20,6 +21,9 @@ type indexTable struct {
 		// obligations of other rules ("RULE:construct prefix") that the reviewed argument counts on: the entry holds
 		// only while every one of them is discharged on the tree at hand
 		RestsOn []string `json:"rests_on"`
+		// the reviewed argument names a test in the function itself ("pointer < length is tested on entry", "eof false
+		// was just tested"): the entry holds only while a branch fact of that kind dominates the expression
+		NeedsGuard bool `json:"needs_guard"`
 	} `json:"entries"`
 	// invariants attached to a type: while the struct's only bool field is true its only slice field has ≥ min_len elements
 	TypeInvariants []struct {
@@ -79,6 +83,16 @@ func init() {
 				matched := false
 				if inv, ok := cursorInvariant(c, tab, site); ok {
 					matched = true
+					needs := false
+					for _, e := range tab.Entries {
+						if e.NeedsGuard && (e.Function == fn || bareFuncName(e.Function) == bareFuncName(fn)) && e.Expr == site.Expr {
+							needs = true
+						}
+					}
+					if needs && !cursorGuardHolds(c, site) {
+						s.Unknown(key, pos, "the reviewed cursor invariant for this expression counts on a test in this function (cursor below the length, or the end-of-input flag false), and no such branch fact dominates it any more: possible index-out-of-range panic at the end of the input")
+						continue
+					}
 					s.OK(key, pos, "reviewed invariant: "+inv)
 					continue
 				}
@@ -87,6 +101,10 @@ func init() {
 					if (e.Function == fn || bareFuncName(e.Function) == bareFuncName(fn)) && (e.Expr == site.Expr || (alt != "" && e.Expr == alt)) {
 						used[i] = true
 						matched = true
+						if e.NeedsGuard && !cursorGuardHolds(c, site) {
+							s.Unknown(key, pos, "the reviewed invariant for this expression counts on a test in this function (cursor below the length, or the end-of-input flag false), and no such branch fact dominates it any more: possible index-out-of-range panic at the end of the input")
+							break
+						}
 						if broken := brokenSupport(c, e.RestsOn); broken != "" {
 							s.Unknown(key, pos, "the reviewed invariant for this expression counts on "+broken+", which does not hold on this tree: possible index-out-of-range panic")
 							break
@@ -238,6 +256,101 @@ func lenRelativeText(site *indexSite) string {
 // cursorInvariant: the site indexes / reslices a slice field of a cursor object by that object's own cursor field
 // (+0, or +1 for the low bound of a reslice): covered by the reviewed cursor invariant of the type, whatever the
 // fields holding the code points are called.
+// cursorGuardHolds: a branch fact that dominates the site says the cursor is below the length (a comparison of two int
+// fields of one object that holds with the smaller one first) or that a bool field of the cursor object is false.
+func cursorGuardHolds(c *Ctx, site *indexSite) bool {
+	fieldLoad := func(v ssa.Value) (ssa.Value, string, bool) {
+		ld, ok := stripConv(v).(*ssa.UnOp)
+		if !ok || ld.Op != token.MUL {
+			return nil, "", false
+		}
+		fa, ok := ld.X.(*ssa.FieldAddr)
+		if !ok {
+			return nil, "", false
+		}
+		return fa.X, fieldElem(fa.X.Type(), fa.Field), true
+	}
+	below := func(cond ssa.Value, val bool) bool {
+		if _, el, ok := fieldLoad(cond); ok && !val && strings.HasSuffix(el, ":eof") {
+			return true
+		}
+		bo, ok := cond.(*ssa.BinOp)
+		if !ok {
+			return false
+		}
+		rel, ok := relOf(bo.Op, val)
+		if !ok {
+			return false
+		}
+		// either side may be an int field of the cursor, or the length of one of its slice fields
+		side := func(v ssa.Value) (ssa.Value, string, bool) {
+			if a, ok := lenArg(v); ok {
+				if o, _, ok := fieldLoad(a); ok {
+					return o, ":length", true
+				}
+				return nil, "", false
+			}
+			return fieldLoad(v)
+		}
+		xo, xe, ok1 := side(bo.X)
+		yo, ye, ok2 := side(bo.Y)
+		if !ok1 || !ok2 || xo != yo {
+			return false
+		}
+		if rel == token.GTR {
+			xe, ye, rel = ye, xe, token.LSS
+		}
+		return rel == token.LSS && strings.HasSuffix(xe, ":pointer") && strings.HasSuffix(ye, ":length")
+	}
+	for _, fa := range Facts(c, site.Fn).At(site.Ins.Block()) {
+		if below(fa.Cond, fa.Val) {
+			return true
+		}
+		// the test lives in a predicate of the cursor (`if i.atEnd() { return … }`): wherever the predicate hands back the
+		// answer the path took, the cursor is below the length
+		call, ok := fa.Cond.(*ssa.Call)
+		if !ok {
+			continue
+		}
+		h := call.Common().StaticCallee()
+		if h == nil || !c.P.InModule(h) || len(h.Blocks) == 0 || h.Signature.Results().Len() != 1 {
+			continue
+		}
+		hf := Facts(c, h)
+		all, some := true, false
+		for _, b := range h.Blocks {
+			rt, ok := b.Instrs[len(b.Instrs)-1].(*ssa.Return)
+			if !ok || len(rt.Results) != 1 {
+				continue
+			}
+			if k, isK := constBool(rt.Results[0]); isK {
+				if k != fa.Val {
+					continue
+				}
+				some = true
+				okb := false
+				for _, f2 := range hf.At(b) {
+					if below(f2.Cond, f2.Val) {
+						okb = true
+					}
+				}
+				if !okb {
+					all = false
+				}
+				continue
+			}
+			some = true
+			if !below(rt.Results[0], fa.Val) {
+				all = false
+			}
+		}
+		if some && all {
+			return true
+		}
+	}
+	return false
+}
+
 func cursorInvariant(c *Ctx, tab *indexTable, site *indexSite) (string, bool) {
 	ld, ok := site.X.(*ssa.UnOp)
 	if !ok {
